@@ -277,11 +277,11 @@ theorem seq_leaf_all (p : Path) (c : Cfg) (f : Nat) (core : Ty) (hno : NotOpt co
     (cases l with
      | id n =>
        simp only [BLeaf.tok] at hn hskip
-       simp only [deTok, hn, hskip, hinted, deser, leafOf, valCoreG, binSem, valLeaf, leafPrim, BLeaf.tok, Event.ofRes, Except.map, enumVal]
+       simp only [deTok, hn, hskip, hinted, deser, leafOf, valCoreG, binSem, valLeaf, u16Leaf, leafPrim, BLeaf.tok, Event.ofRes, Except.map, enumVal]
        try (cases idPrim c n <;> simp [Except.map, leafOf] <;> (try (split <;> simp_all [Except.map])))
      | _ =>
        simp only [BLeaf.tok] at hn hskip
-       simp [deTok, hn, hskip, hinted, deser, leafOf, valCoreG, binSem, valLeaf, leafPrim, BLeaf.tok, Event.ofRes, Except.map, enumVal] <;>
+       simp [deTok, hn, hskip, hinted, deser, leafOf, valCoreG, binSem, valLeaf, u16Leaf, leafPrim, BLeaf.tok, Event.ofRes, Except.map, enumVal] <;>
        (try (split <;> simp_all [Except.map])))
 
 theorem stream_rgb_all (c : Cfg) (f : Nat) (core : Ty) (hno : NotOpt core) (col : Rgb) (rest : List Tok) :
